@@ -134,6 +134,20 @@ pub fn run(tier: Tier) -> i32 {
                 }
             }
         }
+        // the longest symbol of the format: an end marker (26 direct bits) on a fully adverse path - 18 input bytes
+        {
+            let (mprog, mfirst, mlen) = corpus::adversarial_marker_best(230);
+            let it = corpus::Item { name: "adversarial-marker-230".into(), lc: 0, lp: 0, pb: 0, dict: 1 << 20, prog: mprog, marker: true, sized: false };
+            for k in [corpus::OptKind::Header, corpus::OptKind::ProvidedNone] {
+                if let Some(b) = it.build(k) {
+                    let start = b.table[mfirst - 1].0.saturating_sub(12);
+                    for bytewise in [false, true] {
+                        let init: Vec<u32> = if bytewise { vec![1; start] } else { stream_graph::write_all_history(&b.bytes, &b.opts, start) };
+                        jobs.push((format!("{} [{:?}] prefix fed {} then every chunking of the last {} bytes; the marker takes {} bytes", it.name, k, if bytewise { "bytewise" } else { "at once" }, b.bytes.len() - start, mlen), b.bytes.clone(), b.opts, init, mlen));
+                    }
+                }
+            }
+        }
         let longest = jobs.iter().map(|j| j.4).max().unwrap_or(0);
         let agg2 = Mutex::new((0u64, 0u64));
         par_for(jobs.len() as u64, |i| {
@@ -261,6 +275,40 @@ pub fn run(tier: Tier) -> i32 {
             }
         });
         ctx.scope_done("long-inputs", jobs.len() as u64, t2, &format!("{} inputs x up to 10 piece sizes", inputs.len()));
+    }
+    // ---------------------------------------------------------------- gathered writes: a division into three slices handed over in ONE
+    // write_vectored call (what was not consumed is offered again), every pair of cut points of the inputs up to 48 bytes
+    {
+        use crate::cases::{run_case, Case, Fmt, Hex, Rd, SOp, Sk};
+        let t3 = Instant::now();
+        let mut jobs: Vec<(usize, usize, usize)> = Vec::new();
+        for (ii, inp) in ins.iter().enumerate() {
+            let n = inp.bytes.len();
+            if n > 48 || n < 3 {
+                continue;
+            }
+            for a in 1..n - 1 {
+                for b in a + 1..n {
+                    jobs.push((ii, a, b));
+                }
+            }
+        }
+        par_for(jobs.len() as u64, |i| {
+            let (ii, a, b) = jobs[i as usize];
+            let inp = &ins[ii];
+            let x = &inp.bytes;
+            let one = run_case(&Case::Dec { fmt: Fmt::Lzma, opts: inp.opts, input: Hex(x.clone()), rd: Rd::default(), sk: Sk::default() });
+            let case = Case::Stream { opts: inp.opts, sk: Sk::default(), ops: vec![SOp::WriteVectoredAll(vec![Hex(x[..a].to_vec()), Hex(x[a..b].to_vec()), Hex(x[b..].to_vec())]), SOp::Finish] };
+            let o = run_case(&case);
+            ctx.eval(1);
+            ctx.nontriv(1);
+            let s_ok = o.ops.iter().all(|r| r.v.is_ok());
+            let same = s_ok == one.v.is_ok() && (!s_ok || o.out == one.out) && !o.ops.iter().any(|r| r.v.is_panic());
+            if !same {
+                ctx.violation(&case, &format!("{}: offered through write_vectored as slices [..{}], [{}..{}], [{}..] then finish: same verdict as the one-shot decoder ({}) and, on success, the same {} bytes", inp.label, a, a, b, b, one.v.class(), one.out.0.len()), &o, None);
+            }
+        });
+        ctx.scope_done("gathered-writes", jobs.len() as u64, t3, "every pair of cut points of the inputs up to 48 bytes, one write_vectored call");
     }
     let a = agg.lock().unwrap();
     ctx.set_extra("merges", json!(a.2));
